@@ -1053,8 +1053,10 @@ static void build_expr(WorkList *list, ASTNode *expr, Environment *env) {
                 Type op_t1 = check_expression(expr->as.prefix_op.args[0], env);
                 Type op_t2 = check_expression(expr->as.prefix_op.args[1], env);
                 
+                /* Ordering compares the bytes like the other engines (a C comparison would compare the pointers) */
                 bool is_string_comp = false;
-                if ((op == TOKEN_EQ || op == TOKEN_NE) && op_t1 == TYPE_STRING && op_t2 == TYPE_STRING) {
+                if ((op == TOKEN_EQ || op == TOKEN_NE || op == TOKEN_LT || op == TOKEN_LE || op == TOKEN_GT || op == TOKEN_GE) &&
+                    op_t1 == TYPE_STRING && op_t2 == TYPE_STRING) {
                     is_string_comp = true;
                 }
                 
@@ -1071,8 +1073,10 @@ static void build_expr(WorkList *list, ASTNode *expr, Environment *env) {
                     build_expr(list, expr->as.prefix_op.args[1], env);
                     if (op == TOKEN_EQ) {
                         emit_literal(list, ") == 0)");
-                    } else {
+                    } else if (op == TOKEN_NE) {
                         emit_literal(list, ") != 0)");
+                    } else {
+                        emit_formatted(list, ") %s 0)", op == TOKEN_LT ? "<" : op == TOKEN_LE ? "<=" : op == TOKEN_GT ? ">" : ">=");
                     }
                 } else if (is_string_concat) {
                     /* String concatenation: nl_str_concat(a, b) */
